@@ -122,6 +122,59 @@ def reply_text(rng, kind):
     return rng.choice(["FOO", "ok", "OKAY x", "no thanks", "more x", "Again x", "NOPE", "O", "OKx y"])
 
 
+class View(object):
+    """What a stray-reply generator needs to know about the daemon's state at one point of a history."""
+
+    def __init__(self, open_, old_tags, answered):
+        self.open = open_            # id -> {"tag": str|None, "awaiting": set}
+        self.old_tags = old_tags     # [(id, tag, [svcs])]
+        self.answered = answered     # [(svc, tag)]
+
+    def freeze(self):
+        return View({c: {"tag": st["tag"], "awaiting": set(st["awaiting"])} for c, st in self.open.items()},
+                    list(self.old_tags[-50:]), list(self.answered[-30:]))
+
+
+def make_stray(r, view, svcs, ids):
+    """A reply / unlinked notice that is NOT owed: stale serial, not-awaited / unknown service, malformed tag.
+    Returns None when the candidate could be read as a live awaited (tag, service) pair."""
+    svcs = list(svcs) or ["svc.a"]
+    live_pairs = set()
+    for cid, st in view.open.items():
+        if st["tag"]:
+            pt = proto.parse_tag(st["tag"])
+            for sv in st["awaiting"]:
+                live_pairs.add((pt, sv))
+    choice = r.random()
+    svc = r.choice(svcs)
+    tag = None
+    if choice < 0.4 and view.old_tags:
+        cid, tag, tsv = r.choice(view.old_tags[-50:])
+        if tsv and r.random() < 0.8:
+            svc = r.choice(tsv)
+    elif choice < 0.6 and view.open:
+        cid = r.choice(sorted(view.open))
+        st = view.open[cid]
+        if st["tag"]:
+            tag = st["tag"]
+            cands = [x for x in svcs + ["nosuch.svc", svcs[0].upper(), svcs[0] + "x", svcs[0][:-1]] if x not in st["awaiting"]]
+            if not cands:
+                return None
+            svc = r.choice(cands)
+    elif choice < 0.75 and view.answered:
+        svc, tag = r.choice(view.answered[-30:])
+    if tag is None:
+        base = r.choice(sorted(view.open)) if view.open and r.random() < 0.7 else r.choice(list(ids))
+        fam = r.choice(["%x", "%x_", "zz_1", "%x_1x", "%x_1_2", "%x_zz", "%x-1", "_", "%x__1", "g%x_1", "%x_1.", "%x_g"])
+        tag = fam % base if "%x" in fam else fam
+    rd = tag_reads_as(tag)
+    if rd is not None and (rd, svc) in live_pairs:
+        return None
+    if r.random() < 0.15:
+        return {"t": "unlinked", "svc": svc, "tag": tag, "text": "Server not online"}
+    return {"t": "reply", "svc": svc, "tag": tag, "text": reply_text(r, r.choice(REPLY_KINDS))}
+
+
 class RandomHistory(object):
     """Drives a proto.Session with weighted random events."""
 
@@ -171,46 +224,8 @@ class RandomHistory(object):
         return {"t": "userinfo", "id": cid, "user": self.f.user(), "real": self.f.real()}
 
     def stray_ev(self):
-        r = self.rng
-        s = self.s
-        svcs = [n for n, p in s.config.services] or ["svc.a"]
-        live_pairs = set()
-        for cid, st in s.open.items():
-            if st["tag"]:
-                pt = proto.parse_tag(st["tag"])
-                for sv in st["awaiting"]:
-                    live_pairs.add((pt, sv))
-        choice = r.random()
-        svc = r.choice(svcs)
-        tag = None
-        if choice < 0.4 and s.old_tags:
-            cid, tag, tsv = r.choice(s.old_tags[-50:])
-            if tsv and r.random() < 0.8:
-                svc = r.choice(tsv)
-        elif choice < 0.6 and s.open:
-            # live tag, but a service that does not owe an answer (unknown, unconfigured or already answered)
-            cid = r.choice(sorted(s.open))
-            st = s.open[cid]
-            if st["tag"]:
-                tag = st["tag"]
-                cands = [x for x in svcs + ["nosuch.svc", svcs[0].upper(), svcs[0] + "x", svcs[0][:-1]] if x not in st["awaiting"]]
-                if not cands:
-                    return None
-                svc = r.choice(cands)
-        elif choice < 0.75 and self.answered:
-            svc, tag = r.choice(self.answered[-30:])
-        if tag is None:
-            base = r.choice(sorted(s.open)) if s.open and r.random() < 0.7 else r.choice(self.ids)
-            fam = r.choice(["%x", "%x_", "zz_1", "%x_1x", "%x_1_2", "%x_zz", "%x-1", "_", "%x__1", "g%x_1", "%x_ 1x"])
-            tag = fam % base if "%x" in fam else fam
-            if " " in tag:
-                tag = tag.replace(" ", "")
-        rd = tag_reads_as(tag)
-        if rd is not None and (rd, svc) in live_pairs:
-            return None
-        if r.random() < 0.15:
-            return {"t": "unlinked", "svc": svc, "tag": tag, "text": "Server not online"}
-        return {"t": "reply", "svc": svc, "tag": tag, "text": reply_text(r, r.choice(REPLY_KINDS))}
+        view = View(self.s.open, self.s.old_tags, self.answered)
+        return make_stray(self.rng, view, [n for n, p in self.s.config.services], self.ids)
 
     def pick(self):
         r = self.rng
